@@ -128,6 +128,8 @@ func main() {
 	nFr := 200 * cfg.Mult
 	frames := make([]message.Frame, nFr)
 	fencs := make([][]byte, nFr)
+	var midMsgs []message.Message
+	var midEncs [][]byte
 	for i := range frames {
 		n := r.Intn(6)
 		if r.Intn(10) == 0 {
@@ -143,10 +145,24 @@ func main() {
 		}
 		frames[i] = f
 		fencs[i] = f.Encode()
-		if r.Intn(3) == 0 { // a message encoded in between
+		if r.Intn(2) == 0 { // a message encoded right after a frame (the encoders come from one pool)
 			m := randMsg()
-			m.Encode()
+			midMsgs = append(midMsgs, m)
+			midEncs = append(midEncs, m.Encode())
 		}
+	}
+	for i, m := range midMsgs {
+		enc := midEncs[i]
+		inner, err := snappy.Decode(nil, enc)
+		if err != nil {
+			inner = nil
+		}
+		var out message.Message
+		var derr error
+		p, _ := vlib.Catch(func() { out, derr = message.DecodeMessage(enc) })
+		sh.Add(vlib.App("CMsg", msgTerm(m), vlib.Bytes(inner), resMsg(out, derr, p)),
+			map[string]interface{}{"op": "message after a frame", "id": len(m.ID), "chan": len(m.Channel), "payload": len(m.Payload), "ttl": m.TTL},
+			"message/after-frame", true)
 	}
 	for i := 0; i < nFr; i++ {
 		f := frames[i]
@@ -278,6 +294,41 @@ func main() {
 		b.SetTime(tb)
 		sh.Add(vlib.App("CIdOrder", vlib.Bytes(a), vlib.Bytes(b)),
 			map[string]interface{}{"op": "order", "dt": dt}, "id/order", true)
+	}
+	// 3d. concurrent creation: no two ids equal, each creator's ids in creation order
+	for i := 0; i < 2*cfg.Mult; i++ {
+		const creators, per = 8, 20000
+		ssid := message.Ssid{7, 8, 9}
+		all := make([][]message.ID, creators)
+		var wg sync.WaitGroup
+		for g := 0; g < creators; g++ {
+			wg.Add(1)
+			go func(g int) {
+				defer wg.Done()
+				ids := make([]message.ID, per)
+				for k := range ids {
+					ids[k] = message.NewID(ssid)
+				}
+				all[g] = ids
+			}(g)
+		}
+		wg.Wait()
+		seen := make(map[string]struct{}, creators*per)
+		dups, disorder := 0, 0
+		for _, ids := range all {
+			for k, id := range ids {
+				if _, ok := seen[string(id)]; ok {
+					dups++
+				}
+				seen[string(id)] = struct{}{}
+				// a later id of the same second sorts before an earlier one (strictly)
+				if k > 0 && id.Time() == ids[k-1].Time() && string(id) >= string(ids[k-1]) {
+					disorder++
+				}
+			}
+		}
+		sh.Add(vlib.App("CIdStress", vlib.N(creators*per), vlib.N(uint64(dups)), vlib.N(uint64(disorder))),
+			map[string]interface{}{"op": "concurrent NewID", "creators": creators, "each": per, "duplicates": dups, "out_of_order": disorder}, "id/concurrent", true)
 	}
 	// 4. Split
 	for i := 0; i < 400*cfg.Mult; i++ {
